@@ -117,6 +117,7 @@ class W2World(World):
             'views_every': rng.choice([1, 3, 5, 8]),
             'avoid_known': rng.random() < 0.8,
             'other_graph': rng.random() < 0.5,
+            'second_session': rng.random() < 0.35,
             'step_cap': 600,
         }
 
@@ -161,6 +162,30 @@ class W2World(World):
         self._tables = (copy.deepcopy(NodeSliver.NodeConstraints), copy.deepcopy(NetworkServiceSliver.ServiceConstraints))
         self.topo = SubstrateTopology(importer=self.imp) if cfg['flavour'] == 'substrate' else \
             ExperimentTopology(importer=self.imp)
+        self.by_pre = other_graphs_state(self.imp, self.gid())
+        # A second session: another topology of the same flavour in the same store, built by steps interleaved with
+        # the first one's. Names and caller-supplied ids are drawn from the same pools, so the two models hold
+        # equally named / equally identified elements; every oracle applies to whichever session a step belongs to,
+        # and the frame oracle demands that the other session's graph (like the bystander) is left untouched.
+        self.active = 'A'
+        self.sessions = {'A': None}
+        if cfg.get('second_session'):
+            tb = SubstrateTopology(importer=self.imp) if cfg['flavour'] == 'substrate' else \
+                ExperimentTopology(importer=self.imp)
+            self.sessions['B'] = {'topo': tb, 'handles': {}, 'checkpoints': [], '_last_struct': None, 'since_views': 0,
+                                  'queue': []}
+            self.by_pre = other_graphs_state(self.imp, self.gid())
+
+    SESSION_FIELDS = ('topo', 'handles', 'checkpoints', '_last_struct', 'since_views', 'queue')
+
+    def activate(self, sess):
+        if sess == self.active or sess not in self.sessions:
+            return
+        self.sessions[self.active] = {k: getattr(self, k) for k in self.SESSION_FIELDS}
+        for k, v in self.sessions[sess].items():
+            setattr(self, k, v)
+        self.sessions[sess] = None
+        self.active = sess
         self.by_pre = other_graphs_state(self.imp, self.gid())
 
     # ---- helpers
@@ -230,6 +255,20 @@ class W2World(World):
 
     # ------------------------------------------------------------------ generation
     def gen_step(self, rng):
+        if len(self.sessions) > 1:
+            # a multi-step sequence stays with its session; otherwise the next step goes to either
+            pending_other = [k for k, c in self.sessions.items() if c is not None and c['queue']]
+            if not self.queue:
+                if pending_other:
+                    self.activate(pending_other[0])
+                elif self.steps_done < self.cfg['steps']:
+                    self.activate('B' if rng.random() < 0.4 else 'A')
+        s = self.gen_step_(rng)
+        if s is not None and len(self.sessions) > 1:
+            s['sess'] = self.active
+        return s
+
+    def gen_step_(self, rng):
         if self.steps_done >= self.cfg['steps'] and not self.queue:
             return None
         self.steps_done += 1
@@ -267,6 +306,11 @@ class W2World(World):
         from . import w2_ops
         op = s['op']
         self._cur_op = op
+        if s.get('sess'):
+            if s['sess'] not in self.sessions:
+                raise SkipStep()
+            self.activate(s['sess'])
+            self.stats.inc('probe.second_session.steps_%s' % s['sess'])
         pre = self.state()
         pre_struct = Struct(pre)
         info = w2_ops.execute(self, s, pre, pre_struct)      # {'outcome': 'ok'|'exc:<Class>', 'kind': ..., ...}
@@ -320,6 +364,8 @@ class W2World(World):
 
     def finish(self):
         from . import w2_rules
-        if self.since_views and self._last_struct is not None:
-            w2_rules.check_views(self, self._last_struct, 'end')
-            self.end_step()
+        for sess in sorted(self.sessions):
+            self.activate(sess)
+            if self.since_views and self._last_struct is not None:
+                w2_rules.check_views(self, self._last_struct, 'end')
+                self.end_step()
